@@ -235,6 +235,7 @@ macro_rules! c18_script {
                 }
                 same(&w, &r);
             )*
+            kani::cover!(true, "witness: script ran to its end");
             kani::cover!(r.eof, "witness: a short final piece was handed out");
             kani::cover!(r.n == $w, "witness: window full at the end");
             kani::cover!(wrote, "witness: empty wrote pieces");
